@@ -1441,9 +1441,11 @@ void queryDecode(uint64_t i, bool all, std::vector<int> &base, std::vector<int> 
     code = all ? -2001 : (v < uint64_t(NGROUPS) ? -(1001 + int(v)) : -(1 + int(v - NGROUPS)));
     base.clear();
     if (j == 0) { withq = {code}; return; }
-    int a = alphabet()[size_t((j - 1) / 2)];
+    // positions: 0 = the query alone; 1..N = after op a; N+1..2N = before op a
+    uint64_t n = uint64_t(NOPS());
+    int a = alphabet()[size_t((j - 1) % n)];
     base = {a};
-    withq = ((j - 1) % 2 == 0) ? std::vector<int>{code, a} : std::vector<int>{a, code};
+    withq = (j > n) ? std::vector<int>{code, a} : std::vector<int>{a, code};
 }
 struct QueryDiff
 {
